@@ -61,3 +61,6 @@ M("c04-worker-scope-walks-past-shields", "C04", A, "AsyncIOBackend.run_sync_in_w
   "                worker_scope = scope\n                while worker_scope.shield and worker_scope._parent_scope is not None:\n                    worker_scope = worker_scope._parent_scope\n", ["R04-h"])
 M("c04-worker-scope-grandparent", "C04", A, "AsyncIOBackend.run_sync_in_worker_thread",
   "                    worker_scope = scope._parent_scope\n", "                    worker_scope = scope._parent_scope._parent_scope or scope._parent_scope\n", ["R04-h"])
+
+# from seeded change C04/e (round 3): delivery restarted in the name of the wrong scope
+M("c04-restart-wrong-origin", "C04", A, "CancelScope._restart_cancellation", "scope._deliver_cancellation(scope)", "scope._deliver_cancellation(self)", ["R04-i"])
